@@ -469,8 +469,27 @@ def c09_stage(scratch, tier, log):
         src = scratch.read(f)
         try:
             seen = set()
-            for (m, body, sig) in methods_of(src, T):
-                if m in RT_METHODS + ["update_ratio", "update_needed_len", "calc_needed_len"] and (m, sig) not in seen:
+            allm = methods_of(src, T)
+            # closure of the real-time methods under `self.<method>(..)` / `Self::<method>(..)` calls (a helper a maintainer adds later is
+            # followed automatically; constructors are not real-time)
+            want = set(RT_METHODS + ["update_ratio", "update_needed_len", "calc_needed_len"])
+            grew = True
+            while grew:
+                grew = False
+                for (m, body, sig) in allm:
+                    if m not in want:
+                        continue
+                    for n in rp.walk(body):
+                        callee = None
+                        if n[0] == "mcall" and rp.show(rp.strip_paren(n[1])) in ("self", "Self"):
+                            callee = n[2]
+                        if n[0] == "call" and rp.show(n[1]).startswith("Self::"):
+                            callee = rp.show(n[1])[6:]
+                        if callee and callee not in want and any(mm == callee for (mm, _, _) in allm) and not callee.startswith("new"):
+                            want.add(callee)
+                            grew = True
+            for (m, body, sig) in allm:
+                if m in want and (m, sig) not in seen:
                     seen.add((m, sig))
                     c09_function(T, m, body, obs)
         except (rp.ParseError, Undecided) as e:
